@@ -143,21 +143,29 @@ def removeAll (c : Center) (o : Obj) (s : Option Obj) : Center × Res :=
   | [] => (c, .err .keyError)
   | ks => (ks.foldl (fun c k => removeKey c o k) c, .ok)
 
+/-- identifier filter of `findObservations`: no pattern matches everything; a pattern never
+matches a registration without identifier; otherwise `fnmatchcase` -/
+def identOk : Option String → Option String → Bool
+  | none, _ => true
+  | some _, none => false
+  | some p, some i => glob p.toList i.toList
+
+def obsOk : Option Obj → Obj → Bool
+  | none, _ => true
+  | some o, x => x == o
+
+def keyOk (n : Option Name) (s : Option Obj) (k : RKey) : Bool :=
+  (n.isNone || k.1 == n) && (s.isNone || k.2 == s)
+
 def findObs (c : Center) (o : Option Obj) (n : Option Name) (s : Option Obj) (pat : Option String) :
     List Found :=
   c.registry.flatMap fun kr =>
-    if (n.isSome ∧ kr.1.1 ≠ n) ∨ (s.isSome ∧ kr.1.2 ≠ s) then []
-    else kr.2.filterMap fun r =>
-      let idOk : Bool := match pat, r.ident with
-        | none, _ => true
-        | some _, none => false
-        | some p, some i => glob p.toList i.toList
-      let obOk : Bool := match o with
-        | none => true
-        | some o => r.observer = o
-      if idOk && obOk then
-        some ⟨if r.observer ∈ c.dead then none else some r.observer, kr.1.2, kr.1.1, r.ident⟩
-      else none
+    if keyOk n s kr.1 then
+      kr.2.filterMap fun r =>
+        if identOk pat r.ident && obsOk o r.observer then
+          some ⟨if r.observer ∈ c.dead then none else some r.observer, kr.1.2, kr.1.1, r.ident⟩
+        else none
+    else []
 
 /-! ### Hold / disable tables -/
 
